@@ -2,3 +2,7 @@
 import RB.Util.Driver
 import RB.Model.Stats
 import RB.Proofs.C15
+import RB.Model.DataFile
+import RB.Model.Session
+import RB.Util.SessionJson
+import RB.Proofs.C06
